@@ -99,3 +99,7 @@ SUITES = [
 SUITES[0].n_quick = 220
 SUITES[1].n_quick = 200
 SUITES[2].n_quick = 150
+# thorough tier: about 15 minutes in total
+SUITES[0].n_thorough = 2500
+SUITES[1].n_thorough = 3000
+SUITES[2].n_thorough = 2000
